@@ -91,7 +91,10 @@ theorem runCb_J (body : σ → Resume → Burst ℚ σ) (fuel : Nat) (e : EvId) 
   unfold runCb
   cases cb with
   | resume p => exact (resume_J body p fuel e l.s (h.tail rfl) hd).1
-  | probe tag => exact ((h.tail rfl).keeps (ghost_keeps h.pkg rfl rfl rfl rfl rfl)).1
+  | probe tag =>
+    show J (l.s.emit _) rem
+    refine ((h.tail rfl).keeps ?_).1
+    exact ghost_keeps h.pkg rfl rfl rfl rfl rfl
   | stop => exact h.tail rfl
   | intr iv =>
     simp only
@@ -216,15 +219,15 @@ theorem openEvent_J {s : KState ℚ σ} (h : SInv s) (q : QEntry ℚ) (rest : Li
       · left
         intro e he
         have hm : e ∈ (s.res r).putQ := List.mem_of_mem_head? he
-        rw [putOk_congr (s := s) (SameContents.rfl' _) (by rw [hreq]) (fun w _ => by rw [hreq])]
+        rw [putOk_congr (s := s) (s' := openEvent s q rest) (SameContents.of_eq (hres r)) (by rw [hreq]) (fun w _ => by rw [hreq])]
         exact hb e he
       · exact Or.inr (pend _ hp)
     · rcases (h.j.main r).2 with hb | hp
       · left
         refine ⟨fun e he => ?_, fun hk e hm => ?_⟩
-        · rw [getItem_congr (s := s) (SameContents.rfl' _) (by rw [hreq])]
+        · rw [getItem_congr (s := s) (s' := openEvent s q rest) (SameContents.of_eq (hres r)) (by rw [hreq])]
           exact hb.1 e he
-        · rw [getItem_congr (s := s) (SameContents.rfl' _) (by rw [hreq])]
+        · rw [getItem_congr (s := s) (s' := openEvent s q rest) (SameContents.of_eq (hres r)) (by rw [hreq])]
           exact hb.2 hk e hm
       · exact Or.inr (pend _ hp)
 
@@ -301,7 +304,7 @@ theorem sinv_init (t0 : ℚ) (rs : Array ResRec)
     SInv ({ now := t0, resources := rs } : KState ℚ σ) := by
   have hev : ∀ x, (({ now := t0, resources := rs } : KState ℚ σ).ev x) = default := by intro x; simp [KState.ev]
   have hres : ∀ r, (({ now := t0, resources := rs } : KState ℚ σ).res r) = rs.getD r default := fun _ => rfl
-  refine ⟨⟨by intro q hq; cases hq, by intro q hq; cases hq, List.Pairwise.nil⟩, ⟨⟨?_, ?_, ?_, ?_, ?_, ?_, ?_, ?_, ?_⟩, ?_, ?_⟩⟩
+  refine ⟨⟨(by intro q hq; cases hq), (by intro q hq; cases hq), List.Pairwise.nil⟩, ⟨⟨?_, ?_, ?_, ?_, ?_, ?_, ?_, ?_, ?_⟩, ?_, ?_⟩⟩
   · intro q hq; cases hq
   · intro p hp; exact absurd rfl hp
   · intro x l c hl; rw [hev] at hl; cases hl
@@ -362,7 +365,7 @@ theorem cbDom_of_noTrig (body : σ → Resume → Burst ℚ σ) (hb : ∀ st rs,
   cases cb with
   | resume p => exact resumeDom_of_noTrig body hb p fuel e s
   | intr iv =>
-    unfold cbDom
+    show (match (s.ev iv).kind with | .intr p => intrDom body fuel iv p s | _ => True)
     split
     · unfold intrDom
       split
